@@ -144,11 +144,8 @@ func (ctx *Context) WriteError(err error) error {
 		return nil
 	}
 
-	codec := share.Codecs[req.SerializeType()]
-	if codec == nil {
-		return fmt.Errorf("can not find codec for %d", req.SerializeType())
-	}
-
+	// an error response carries no payload: it must be sent even when the request's
+	// serialization type is unknown (that is one of the errors to report)
 	res := req.Clone()
 	res.SetMessageType(protocol.Response)
 
@@ -168,6 +165,9 @@ func (ctx *Context) WriteError(err error) error {
 	}
 
 	res.SetMessageStatusType(protocol.Error)
+	if res.Metadata == nil {
+		res.Metadata = make(map[string]string)
+	}
 	res.Metadata[protocol.ServiceError] = err.Error()
 
 	respData := res.EncodeSlicePointer()
